@@ -1,0 +1,12 @@
+//go:build verif
+// +build verif
+
+package distributed
+
+// VerifSetClock replaces the timestamp source of the replicated state (simulation only).
+// It returns a function restoring the previous source.
+func VerifSetClock(f func() int64) (restore func()) {
+	old := clock
+	clock = f
+	return func() { clock = old }
+}
